@@ -135,16 +135,26 @@ def refusals(v, ctx, bins, classes):
     n = 0
     tftpd, tftpc = bins["tftpd"], bins["tftpc"]
     for single in (False, True):
-        for kind in ("missing", "read-only", "exists"):
+        for kind in ("missing", "read-only", "exists", "missing+keep", "exists+keep", "escaping+keep"):
             n += 1
+            keep = kind.endswith("+keep")          # the client's own --keep-on-error: a refusal still creates no file
+            kind = kind.split("+")[0]
             pair = Pair(ctx, tftpd, single, "127.0.0.1", read_only=(kind == "read-only"))
             try:
-                common = ["-i", "127.0.0.1", "-p", str(pair.srv.port), "-b", "512", "-w", "2", "-t", "1"]
-                if kind == "missing":
+                common = ["-i", "127.0.0.1", "-p", str(pair.srv.port), "-b", "512", "-w", "2", "-t", "1"] + (["--keep-on-error"] if keep else [])
+                if kind == "escaping":
+                    before = N.snapshot(pair.cli)
+                    rc, out, err, dt = run_client(tftpc, pair.cli, ["../outside/canary.bin", "-d", "-rd", "dl"] + common, timeout=20)
+                    diff = N.snap_diff(before, N.snapshot(pair.cli))
+                    code = "Access Violation"
+                    kind = "escaping"
+                elif kind == "missing":
                     before = N.snapshot(pair.cli)
                     rc, out, err, dt = run_client(tftpc, pair.cli, ["nope.bin", "-d", "-rd", "dl"] + common, timeout=20)
                     diff = N.snap_diff(before, N.snapshot(pair.cli))
                     code = "File Not Found"
+                elif False:
+                    pass
                 else:
                     write(os.path.join(pair.cli, "u.bin"), b"client data")
                     if kind == "exists":
@@ -153,6 +163,8 @@ def refusals(v, ctx, bins, classes):
                     rc, out, err, dt = run_client(tftpc, pair.cli, ["u.bin", "-u"] + common, timeout=20)
                     diff = N.snap_diff(before, N.snapshot(pair.sb["srv"]))
                     code = "Access Violation" if kind == "read-only" else "File Exists"
+                if keep:
+                    kind += "+keep-on-error"
                 replay = {"engine": "net", "refusal": kind, "single": single, "stderr": err[-300:], "stdout": out[-200:], "rc": rc}
                 if rc is None:
                     v.note_inconclusive(f"refusal {kind}: client hit the watchdog")
